@@ -3904,7 +3904,10 @@ func (p *Parser) parseChangeStreamFor() ast.ChangeStreamFor {
 
 		if p.Token.Kind == "(" {
 			p.nextToken()
-			forTable.Columns = parseCommaSeparatedList(p, p.parseIdent)
+			// An empty column list, "t()", watches only the key columns.
+			if p.Token.Kind != ")" {
+				forTable.Columns = parseCommaSeparatedList(p, p.parseIdent)
+			}
 			forTable.Rparen = p.expect(")").Pos
 		}
 
